@@ -112,13 +112,78 @@ def late_log_family(ctx, rng):
     return out
 
 
+COMMIT_STYLES = [("decorated", dict(commitRaw=0, commitOmit=0)), ("omitted", dict(commitRaw=0, commitOmit=1)),
+                 ("raw", dict(commitRaw=1, commitOmit=0, commitDeco=0)), ("raw-decorated", dict(commitRaw=1, commitOmit=0))]
+MSG_LINES = ["    Fix the thing", "    Ünïcode subject", "    diff --git a/no b/no", "    --- a/not-a-header", "    +++ b/not-a-header",
+             "    @@ -1 +1 @@ not a hunk", "    Binary files a and b differ", "    Submodule x 1..2:", "    old mode 100644",
+             "    commit 1234567 (quoted)", "", "Notes:", "    a note"]
+
+
+def gen_commit_block(rng, idx, merge=False):
+    """a commit block of `git log -p`: commit line, Merge:/Author:/Date:, blank, indented message (any text), blank.
+    The Author line carries `idx` so that the oracle finds the block in the output."""
+    h = "%040x" % (0x1234567890abcdef1234567890abcdef12345678 + idx)
+    out = ["commit " + h + rng.choice(["", " (HEAD -> main)", " (tag: v1.0)"])]
+    if merge:
+        out.append("Merge: 1111111 2222222")
+    out += [f"Author: A U Thor <a{idx}@example.com>", "Date:   Mon Jan 1 00:00:00 2024 +0000", ""]
+    out += [rng.choice(MSG_LINES[:10]) for _ in range(rng.randint(1, 3))]
+    if rng.random() < 0.3:
+        out += ["", "Notes:", "    a note"]
+    out.append("")
+    return out
+
+
+def log_family(ctx, rng):
+    """(cfg, lines, files, blocks) in the shapes of `one_file_header_per_section_log` (T19): `git log -p` streams - commits with
+    any number of sections (also none: two commit blocks in a row, a commit block as the last thing), every section kind - the
+    six whose header is written late in every shape - directly before a commit block, x the four kinds of commit style
+    (decorated, omitted, raw, raw with a decoration). `blocks` = [(index of the commit line, idx of the Author marker)]."""
+    out = []
+    others = [k for k in ALL_KINDS if k not in ("binary_noindex",)]
+    for _ in range(ctx.n(1, 10)):
+        kinds = M.LATE_HEADER_KINDS + rng.sample([k for k in others if k not in M.LATE_HEADER_KINDS], 4)
+        for kind in kinds:
+            late = kind in M.LATE_HEADER_KINDS
+            shapes = ("commit-section", "commit-commit-section", "commit-last", "diff-then-log") if late else \
+                (rng.choice(["commit-section", "commit-commit-section", "commit-last", "diff-then-log"]),)
+            for shape in shapes:
+                sname, sd = COMMIT_STYLES[(len(out) + len(out) // 4) % 4]     # every style with every shape
+                cfg = M.gen_cfg(rng, color_only=False)
+                cfg.d["fileRaw"] = 0; cfg.d["fileOmit"] = 0
+                cfg.d.update(sd)
+                prefixes = rng.choice([("a/", "b/")] * 3 + [("i/", "w/"), ("", "")])
+                files, lines, blocks = [], [], []
+                def add(k):
+                    f = M.gen_file(rng, kind=k, prefixes=prefixes)
+                    f["first_line"] = len(lines)
+                    lines.extend(f["lines"]); files.append(f)
+                def commit(merge=False):
+                    blocks.append((len(lines), len(blocks)))
+                    lines.extend(gen_commit_block(rng, len(blocks) - 1, merge))
+                if shape != "diff-then-log":
+                    commit()                                  # the stream begins with a commit
+                    if rng.random() < 0.5:
+                        add(rng.choice(others))
+                add(kind)                                     # the section under test, directly before a commit block
+                commit(merge=rng.random() < 0.3)
+                if shape == "commit-commit-section":
+                    commit()                                  # a commit without a diff
+                if shape != "commit-last":
+                    add(rng.choice(others))
+                    if rng.random() < 0.4:
+                        add(rng.choice(M.LATE_HEADER_KINDS))      # late header at the end of input
+                out.append((cfg, lines, files, blocks, sname + ":" + shape))
+    return out
+
+
 def run(ctx, rep):
     rep.rule = ("git diffs over all 20 section kinds (incl. renamed/copied binary file with changes, deleted binary file, binary file "
                 "with a mode change, submodule log of diff.submodule=log; every kind with a `Binary files` line also first/after a "
                 "section and last/before a section/before a commit block/twice; every kind - all six whose header is written late in "
                 "every position - directly before a submodule log that is last/before a section/before a second log/before a commit "
                 "block) x path shapes (spaces, non-ASCII, mnemonic prefixes, /dev/null sides) x "
-                "hunks present/absent x neighbours, plus plain diff -u; label/arrow/style settings random; non-trivial = >= 2 "
+                "hunks present/absent x neighbours, plus git log -p streams (commit blocks before/between/after sections, commits without a diff, every section kind directly before a commit block x 4 commit styles), plus plain diff -u; label/arrow/style settings random; non-trivial = >= 2 "
                 "sections or a rename/copy/mode/binary event; distinct by (config, input)")
     rng = ctx.rng
     cases, meta = [], []
@@ -154,8 +219,35 @@ def run(ctx, rep):
     # every section shape directly before a submodule log (a late header must be written before the log's header)
     for cfg, lines, files in late_log_family(ctx, rng):
         cases.append((cfg, [l.encode() for l in lines])); meta.append((cfg, lines, files, "git"))
+    # `git log -p` streams (T19): commit blocks before / between / after the sections, commits without a diff, every commit style
+    logmeta = {}
+    for cfg, lines, files, blocks, shape in log_family(ctx, rng):
+        logmeta[len(cases)] = (blocks, shape)
+        cases.append((cfg, [l.encode() for l in lines])); meta.append((cfg, lines, files, "git"))
     res = M.observe(ctx, cases)
-    for (cfg, lines, files, src), (impl, model) in zip(meta, res):
+    for ci, ((cfg, lines, files, src), (impl, model)) in enumerate(zip(meta, res)):
+        if ci in logmeta and impl.ok and not impl.panic:
+            # the header of a section directly before a commit block stands before that block in the output (for a section
+            # without `---`/`+++` lines it is written at the commit line), and no file header is written for a commit block
+            blocks, shape = logmeta[ci]
+            rep.count("log-shape:" + shape)
+            case0 = dict(args=cfg.args(), model_cfg=cfg.d, input="\n".join(lines), source=src)
+            fpos = [i for i, (k, t) in enumerate(impl.rows) if k == "file"]
+            headed0 = [f for f in files if f["kind"] != "binary_noindex"]
+            for at, idx in blocks:
+                marker = f"Author: A U Thor <a{idx}@example.com>"
+                apos = [i for i, (k, t) in enumerate(impl.rows) if t == marker]
+                if len(apos) != 1:
+                    rep.violation("commit-block:message-line-not-passed-through", f"{marker!r} is shown {len(apos)} times", case0)
+                    continue
+                nbefore = len([f for f in headed0 if f["first_line"] < at])
+                got_before = len([i for i in fpos if i < apos[0]])
+                prev = [f for f in headed0 if f["first_line"] + len(f["lines"]) == at]
+                if prev:
+                    rep.count("before-commit-block:" + ("late:" if prev[0]["kind"] in M.LATE_HEADER_KINDS else "") + prev[0]["kind"])
+                if len(fpos) == len(headed0) and got_before != nbefore:
+                    rep.violation("file-header:not-before-following-commit-block:" + (prev[0]["kind"] if prev else "none"),
+                                  f"{got_before} file headers before the block of commit line {at}, {nbefore} sections precede it", case0)
         case = dict(args=cfg.args(), model_cfg=cfg.d, input="\n".join(lines), source=src)
         rep.case(key=(cfg.key(), tuple(lines)), nontrivial=len(files) > 1 or any(f["kind"] not in ("modified", "plain") for f in files),
                  sample=dict(kinds=[f["kind"] for f in files], paths=[(f["old"], f["new"]) for f in files][:3]))
